@@ -1384,7 +1384,7 @@ class ServiceClass:
                 # Failure: Cannot Understand - callback returned
                 #   a pydicom.dataset.Dataset without a Status element
                 rsp.Status = 0xC001
-        elif isinstance(status, int):
+        elif isinstance(status, int) and 0x0000 <= status <= 0xFFFF:
             rsp.Status = status
         else:
             LOGGER.error("Invalid status returned by callback")
